@@ -73,10 +73,38 @@ def correspondence(ctx):
             got, ok, model = f'raised {type(ex).__name__}: {ex}', False, None
         if not ok:
             dis.append(dict(what='interpolation bracket indices', case=c, impl=got, model=model))
+    # Rouwenhorst: the code's Markov matrix for dyadic p (no rounding occurs) vs the ring model evaluated over the rationals (Qc)
+    from fractions import Fraction
+    rw_cases = []
+    for N in range(2, 9):
+        for a, k in ((3, 2), (1, 1), (5, 3), (1, 3), (7, 3), (0, 1), (1, 0)) if ctx['tier'] == 'quick' else [(a, k) for k in range(0, 5) for a in range(0, 2 ** k + 1)]:
+            rw_cases.append(dict(kind='rouwenhorst', N=N, p=[a, 2 ** k]))
+    hdr = ('From Coq Require Import ZArith QArith Qcanon List.\nFrom SSJ Require Import Model.Rouwenhorst.\nImport ListNotations.\n'
+           'Definition rwq (a : Z) (b : positive) (N : nat) : list (list (Z * Z)) :=\n'
+           '  map (fun r => map (fun x => (Qnum (this x), Zpos (Qden (this x)))) r) (rw_matrix Qc (Q2Qc 0) (Q2Qc 1) Qcplus Qcmult Qcminus (Q2Qc (a # b)) (Q2Qc (1 # 2)) N).\n')
+    vals2, logs2 = C.eval_in_coq('C17', hdr, [f"rwq {c['p'][0]} {c['p'][1]}%positive {c['N']}%nat" for c in rw_cases], chunk=25, tag='rw')
+    for c, vm in zip(rw_cases, vals2):
+        distinct.add(C.canon(c))
+        rho = 2 * c['p'][0] / c['p'][1] - 1
+        try:
+            if abs(rho) >= 1:        # p in {0, 1}: the stationary iteration of the code has no unique limit; build the matrix only
+                import unittest.mock as um
+                with um.patch.object(dz, 'stationary', lambda Pi, *a, **k: np.ones(Pi.shape[0]) / Pi.shape[0]):
+                    Pi = dz.markov_rouwenhorst(rho, 1.0, c['N'])[2]
+            else:
+                Pi = dz.markov_rouwenhorst(rho, 1.0, c['N'])[2]
+            got = [[[Fraction(float(v)).numerator, Fraction(float(v)).denominator] for v in row] for row in Pi]
+        except Exception as ex:
+            got = f'raised {type(ex).__name__}: {ex}'
+        model = None if vm is None else [[[int(v[0]), int(v[1])] for v in row] for row in vm]
+        if got != model:
+            dis.append(dict(what='markov_rouwenhorst transition matrix vs the ring model over the rationals', case=c, impl=got if isinstance(got, str) else got[:2], model=None if model is None else model[:2]))
+    cases = cases + rw_cases
+    logs = logs + logs2
     for l in logs:
         dis.append(dict(what='coq evaluation failed', log=l))
     return dict(evaluations=len(cases), distinct_nontrivial=len(distinct),
-                rule='strictly increasing integer grids (n 2..9) with queries on grid points (35%), below, above and inside; unsorted for the robust '
+                rule='Rouwenhorst matrices for N 2..8 and dyadic p incl. 0 and 1 (exact rational comparison with the ring model over Qc); strictly increasing integer grids (n 2..9) with queries on grid points (35%), below, above and inside; unsorted for the robust '
                      'routine, sorted for the monotone sweep (guvectorized and njit variants): bracket indices vs the model',
                 samples=[cases[0], cases[1]], disagreements=dis, stats=stats)
 
